@@ -38,7 +38,11 @@ CONSTANTS Ids,          \* context ids used by the client (subset of 1..3)
           PopOnDelete, DupCheck,
           Patience,     \* busy workers the helper can wait out before the server gives up on it
           HandlerKills, \* the helper's SIGTERM handler kills the workers of the context
-          Profile       \* "free" | "manybusy"
+          Profile,      \* "free" | "manybusy"
+          AliasDefaults,\* mutant (TLC must reject it): the worker updates ONE dict of defaults for every input, so a per-input
+                        \* keyword sticks to all later inputs
+          ShutdownFirst \* mutant (TLC must reject it): the unknown-context branch calls shutdown() before close(): OSError(ENOTCONN)
+                        \* out of the accept loop when that client has already been reset
 
 VARIABLES n, phase, req, rep, want, cur,
           table,        \* id -> helper index (0 = not registered)       [server: self.contexts]
@@ -56,7 +60,7 @@ NoReq == [op |-> "none", id |-> 0, tok |-> 0, w |-> 0, x |-> 0, k |-> "-"]
 Init == /\ n = 0 /\ phase = "idle" /\ req = NoReq /\ rep = "-" /\ want = "-" /\ cur = 0
         /\ table = [i \in 1..3 |-> 0]
         /\ hp = [h \in 1..MaxLen |-> [id |-> 0, tok |-> 0, st |-> "none"]] /\ nh = 0
-        /\ wk = [w \in Workers |-> [h |-> 0, st |-> "none", tok |-> 0]] /\ nw = 0
+        /\ wk = [w \in Workers |-> [h |-> 0, st |-> "none", tok |-> 0, ovr |-> 0]] /\ nw = 0
         /\ gen = [i \in 1..3 |-> 0]
         /\ dict = [i \in 1..3 |-> NoTok]
         /\ aw = [w \in Workers |-> [tok |-> NoTok, live |-> FALSE, ctx |-> 0]]
@@ -71,6 +75,8 @@ Requests ==
    \cup {[op |-> "start", id |-> i, tok |-> 0, w |-> nw + 1, x |-> 0, k |-> Known(i)] : i \in {j \in Ids : nw < MaxW}}
    \cup {[op |-> o, id |-> 0, tok |-> 0, w |-> w, x |-> w + n, k |-> "-"] : o \in {"call", "wait"}, w \in {v \in Workers : wk[v].st \in {"alive", "dead"}}}
    \cup {[op |-> "busy", id |-> 0, tok |-> 0, w |-> w, x |-> 0, k |-> "-"] : w \in {v \in Workers : wk[v].st = "alive"}}
+   \cup {[op |-> "callk", id |-> 0, tok |-> 0, w |-> w, x |-> w + n, k |-> "-"] : w \in {v \in Workers : wk[v].st = "alive"}}
+   \cup {[op |-> "rstart", id |-> i, tok |-> 0, w |-> 0, x |-> 0, k |-> Known(i)] : i \in Ids}
 Lowest(S) == CHOOSE w \in S : \A v \in S : w <= v
 Idlers == {v \in Workers : wk[v].st = "alive"}
 Scripted ==
@@ -84,10 +90,13 @@ AbstractReply(q) ==
      [] q.op = "delete" -> "T"
      [] q.op = "start"  -> IF dict[q.id] = NoTok THEN "nostart" ELSE "started"
      [] q.op = "call"   -> IF aw[q.w].live THEN Val(CtxTarget(q.x, aw[q.w].tok)) ELSE "dead"
+     [] q.op = "callk"  -> IF aw[q.w].live THEN Val(CtxTarget(q.x, OverrideTok)) ELSE "dead"
+     [] q.op = "rstart" -> "nostart"
      [] q.op = "busy"   -> "queued"
      [] OTHER           -> "T"
 FirstPhase(q) == CASE q.op = "create" -> "c_unpickle" [] q.op = "delete" -> "d_pop" [] q.op = "start" -> "s_lookup"
-                   [] q.op = "call" -> "w_call" [] q.op = "busy" -> "w_busy" [] OTHER -> "w_wait"
+                   [] q.op = "call" -> "w_call" [] q.op = "busy" -> "w_busy" [] q.op = "callk" -> "w_callk"
+                   [] q.op = "rstart" -> "r_lookup" [] OTHER -> "w_wait"
 Issue == /\ phase = "idle" /\ n < MaxLen /\ srv = "up"
          /\ \E q \in (IF Profile = "manybusy" THEN Scripted ELSE Requests) : req' = q /\ want' = AbstractReply(q) /\ phase' = FirstPhase(q)
          /\ UNCHANGED <<n, rep, cur, table, hp, nh, wk, nw, gen, dict, aw, srv, hist, reps, lives>>
@@ -160,16 +169,31 @@ StartForward ==
    /\ phase = "s_forward"
    /\ LET h == table[req.id] IN
       IF hp[h].st = "alive"
-      THEN /\ wk' = [wk EXCEPT ![req.w] = [h |-> h, st |-> "alive", tok |-> hp[h].tok]]
-           /\ Reply("started", [wk EXCEPT ![req.w] = [h |-> h, st |-> "alive", tok |-> hp[h].tok]])
+      THEN /\ wk' = [wk EXCEPT ![req.w] = [h |-> h, st |-> "alive", tok |-> hp[h].tok, ovr |-> 0]]
+           /\ Reply("started", [wk EXCEPT ![req.w] = [h |-> h, st |-> "alive", tok |-> hp[h].tok, ovr |-> 0]])
            /\ UNCHANGED srv
       ELSE /\ srv' = "crashed" /\ Reply("hang", wk) /\ UNCHANGED wk    \* ctx.call on a dead helper raises in the accept loop
    /\ UNCHANGED <<req, want, cur, table, hp, nh, nw, gen>>
 
+\* the worker merges the input into a COPY of the context's defaults (mutant: into the one dict it keeps)
+DefaultOf(w) == IF wk[w].ovr # 0 THEN wk[w].ovr ELSE wk[w].tok
 WCall ==
    /\ phase = "w_call"
-   /\ Reply(IF wk[req.w].st = "alive" THEN Val(CtxTarget(req.x, wk[req.w].tok)) ELSE "dead", wk)
+   /\ Reply(IF wk[req.w].st = "alive" THEN Val(CtxTarget(req.x, DefaultOf(req.w))) ELSE "dead", wk)
    /\ UNCHANGED <<req, want, cur, table, hp, nh, wk, nw, gen, srv>>
+WCallK ==
+   /\ phase = "w_callk"
+   /\ LET wkn == IF AliasDefaults /\ wk[req.w].st = "alive" THEN [wk EXCEPT ![req.w].ovr = OverrideTok] ELSE wk IN
+      /\ wk' = wkn
+      /\ Reply(IF wk[req.w].st = "alive" THEN Val(CtxTarget(req.x, OverrideTok)) ELSE "dead", wkn)
+   /\ UNCHANGED <<req, want, cur, table, hp, nh, nw, gen, srv>>
+\* a worker request whose client has been reset before the server reads it: unknown context -> close() and continue;
+\* known -> the helper's handshake fails at once (no worker)
+RLookup ==
+   /\ phase = "r_lookup"
+   /\ srv' = IF ShutdownFirst /\ table[req.id] = 0 THEN "crashed" ELSE srv
+   /\ Reply("nostart", wk)
+   /\ UNCHANGED <<req, want, cur, table, hp, nh, wk, nw, gen>>
 WBusy ==               \* the job is queued and the worker enters its blocking call
    /\ phase = "w_busy"
    /\ wk' = [wk EXCEPT ![req.w].st = "busy"]
@@ -187,12 +211,12 @@ Collect == /\ \E h \in 1..nh : /\ hp[h].st = "alive" /\ \A i \in 1..3 : table[i]
                               /\ hp' = [hp EXCEPT ![h].st = "dead"]
            /\ UNCHANGED <<n, phase, req, rep, want, cur, table, nh, wk, nw, gen, dict, aw, srv, hist, reps, lives>>
 
-Next == Issue \/ CreateUnpickle \/ CreateCheck \/ DeletePop \/ DeleteWait \/ DeleteForced \/ StartLookup \/ StartForward \/ WCall \/ WBusy \/ WWait \/ Collect
+Next == Issue \/ CreateUnpickle \/ CreateCheck \/ DeletePop \/ DeleteWait \/ DeleteForced \/ StartLookup \/ StartForward \/ WCall \/ WCallK \/ RLookup \/ WBusy \/ WWait \/ Collect
 Spec == Init /\ [][Next]_vars /\ WF_vars(Next)
 
 -----------------------------------------------------------------------------
 Idle == phase = "idle"
-TypeOK == /\ phase \in {"idle", "c_unpickle", "c_check", "d_pop", "d_wait", "s_lookup", "s_forward", "w_call", "w_busy", "w_wait"}
+TypeOK == /\ phase \in {"idle", "c_unpickle", "c_check", "d_pop", "d_wait", "s_lookup", "s_forward", "w_call", "w_callk", "r_lookup", "w_busy", "w_wait"}
           /\ n \in 0..MaxLen /\ nh \in 0..MaxLen /\ nw \in 0..MaxW /\ srv \in {"up", "crashed"}
           /\ \A i \in 1..3 : table[i] \in 0..nh
 \* refinement: the implementation's table, seen through the helpers' tokens, IS the dictionary
@@ -224,6 +248,8 @@ W_NoReuse       == ~(phase = "c_check" /\ table[req.id] = 0 /\ gen[req.id] > 1)
 W_NoUnknownStart == ~(phase = "s_lookup" /\ table[req.id] = 0)
 W_NoUnknownDelete == ~(phase = "d_pop" /\ table[req.id] = 0)
 W_NoDeleteWithWorkers == ~(phase = "d_wait" /\ \E w \in Workers : wk[w].h = cur /\ wk[w].st = "alive")
+W_NoPlainAfterKeyword == ~(phase = "w_call" /\ wk[req.w].st = "alive" /\ \E m \in 1..Len(hist) : hist[m].op = "callk" /\ hist[m].w = req.w)
+W_NoResetUnknown == ~(phase = "r_lookup" /\ table[req.id] = 0)
 W_NoForcedDelete == ~(phase = "d_wait" /\ Forced(cur))
 W_NoBusyRegular  == ~(phase = "d_wait" /\ ~Forced(cur) /\ BusyOf(cur) # {})
 W_NoCallAfterDup == ~(phase = "w_call" /\ wk[req.w].st = "alive" /\ gen[hp[wk[req.w].h].id] > 1 /\ hp[wk[req.w].h].tok % 10 = 1)
